@@ -29,6 +29,9 @@ def run_decode(ctx, cases, judge, annot=False):
     `annot`: wrap every annotation in Annotated / NewType / TypeAliasType (schema.realize)"""
     lines, metas = [], []
     for ty, data, entry, origin in cases:
+        if any(isinstance(n, list) and len(n) == 3 and n[0] == "coll" and n[1] == "chainmap" and any(not (isinstance(mp, list) and mp and mp[0] == "map") for mp in n[2]) for n in S.v_nodes(data) if n is not None):
+            ctx.bump("input skipped: ChainMap over a non-mapping (not JSON-like data)")
+            continue
         reg = S.Reg(mixin=(entry == "mixin"))
         reg.annot = annot
         try:
